@@ -463,9 +463,9 @@ class Run:
                 # a stream whose model mirrors a recorded finding keeps comparing the cases that show it
                 if getattr(stream, "compare_known", False) and io_c != mo_c and \
                         self.known_finding(dict(stream=stream.name, ops=ops, impl=None, model=None, why=why, kind="predicate")):
-                    mism.append(ops)
+                    mism.append((ops, io, mo))
             elif io_c != mo_c:
-                mism.append(ops)
+                mism.append((ops, io, mo))
         self.cov["evaluations"] += len(cases)
         self.cov["distinct_nontrivial"] = len(self._nontriv)
         if len(self.cov["samples"]) < 6 and cases:
@@ -527,7 +527,7 @@ class Run:
                 break
         # --- outputs differ but the predicate holds: correspondence broken, search found no failing input
         reported = 0
-        for ops in sorted(mism, key=len):
+        for ops, io0, mo0 in sorted(mism, key=lambda x: len(x[0])):
             if reported >= 25:
                 break
             def differs(c):
@@ -543,6 +543,11 @@ class Run:
                     self.log(f"stream {stream.name}: a model/implementation difference did not show again in every one of 3 re-runs (timing)")
                     continue
                 io, mo = stream.both(small)
+            seen_once = ""
+            if stream.canon(small, io) == stream.canon(small, mo):
+                # the difference does not show in this run of the shrunk case: report the case and the outputs in which it was seen
+                small, io, mo = ops, io0, mo0
+                seen_once = " [seen in the run whose outputs are shown; a re-run of the case did not show it]"
             why = safe_pred(stream, small, io)
             if why and getattr(stream, "compare_known", False) and \
                     self.known_finding(dict(stream=stream.name, ops=small, impl=io, model=mo, why=why, kind="predicate")):
@@ -559,7 +564,7 @@ class Run:
             else:
                 body = self.render(stream, small, io, mo,
                                    f"correspondence stream '{stream.name}' no longer checks: model and implementation differ; "
-                                   "the property predicate found no failing input on this case")
+                                   "the property predicate found no failing input on this case" + seen_once)
                 self.violation(f"{stream.name}-corr{reported}", body, False, "model/impl mismatch")
             if reported >= 2:
                 break
